@@ -27,8 +27,8 @@ import multiprocessing
 
 VERIF_DIR = os.path.dirname(os.path.dirname(os.path.abspath(__file__)))
 REPO_DIR = os.environ.get('PANE_REPO', '/repo')
-EVIDENCE_DIR = os.path.join(VERIF_DIR, 'evidence')
-REPLAY_DIR = os.path.join(VERIF_DIR, 'replays')
+EVIDENCE_DIR = os.environ.get('VERIF_EVIDENCE_DIR') or os.path.join(VERIF_DIR, 'evidence')
+REPLAY_DIR = os.environ.get('VERIF_REPLAY_DIR') or os.path.join(VERIF_DIR, 'replays')
 KNOWN_FINDINGS = os.path.join(VERIF_DIR, 'known_findings.txt')
 
 EXIT_OK, EXIT_VIOLATION, EXIT_HARNESS = 0, 1, 2
